@@ -2156,6 +2156,9 @@ class Engine:
         for k in e.keywords:
             v = self.eval(path, frame, k.value)
             if k.arg is None:
+                if isinstance(v, (ExtVal, Sym)) and "**" not in kwargs:
+                    kwargs["**"] = v            # an opaque mapping splatted into an (external) call
+                    continue
                 if not isinstance(v, DictObj):
                     raise Unsupported("** of non-dict")
                 for kk, vv in v.d.items():
